@@ -22,6 +22,13 @@ from concurrent.futures import ThreadPoolExecutor
 VERIF = os.path.dirname(os.path.dirname(os.path.abspath(__file__)))
 REPO = os.environ.get("VERIF_REPO", "/repo")
 COQ = os.path.join(VERIF, "coq")
+# A tree other than /repo (VERIF_REPO=<scratch worktree>, used for proposed fixes and seeded
+# mutations) gets its own work directory and writes evidence/replays under .work/alt/, so the
+# committed evidence only ever comes from runs against /repo itself.
+ALT = os.path.realpath(REPO) != "/repo"
+ALT_TAG = ("-" + re.sub(r"[^A-Za-z0-9]+", "_", os.path.realpath(REPO)).strip("_")) if ALT else ""
+EVID_DIR = os.path.join(VERIF, ".work", "alt", "evidence" + ALT_TAG) if ALT else os.path.join(VERIF, "evidence")
+REPLAY_DIR = os.path.join(VERIF, ".work", "alt", "replays" + ALT_TAG) if ALT else os.path.join(VERIF, "replays")
 WARN = "-notation-overridden,-deprecated-hint-without-locality,-ambiguous-paths,-deprecated-instance-without-locality,-deprecated-hint-rewrite-without-locality"
 
 
@@ -54,7 +61,7 @@ class Run:
     def __init__(self, pid, tier, seed, replay=None):
         self.pid, self.tier, self.seed, self.replay = pid, tier, seed, replay
         self.spec, self.mod = load_spec(pid)
-        self.work = os.path.join(VERIF, ".work", pid)
+        self.work = os.path.join(VERIF, ".work", pid + ALT_TAG)
         shutil.rmtree(self.work, ignore_errors=True)
         os.makedirs(self.work, exist_ok=True)
         self.t0 = time.time()
@@ -278,8 +285,8 @@ def finding_matches(entry, pid, failure):
 
 
 def write_replay(run, kind, body):
-    os.makedirs(os.path.join(VERIF, "replays"), exist_ok=True)
-    path = os.path.join(VERIF, "replays", f"{run.pid}-{run.tier}-{run.seed}-{kind}.json")
+    os.makedirs(REPLAY_DIR, exist_ok=True)
+    path = os.path.join(REPLAY_DIR, f"{run.pid}-{run.tier}-{run.seed}-{kind}.json")
     body = dict(body)
     body.update({"property": run.pid, "seed": run.seed, "tier": run.tier, "kind": kind})
     json.dump(body, open(path, "w"), indent=1, default=str)
@@ -406,8 +413,8 @@ def main(argv):
         "wall_s": round(time.time() - run.t0, 1),
         "violations": violations,
     }
-    os.makedirs(os.path.join(VERIF, "evidence"), exist_ok=True)
-    json.dump(evidence, open(os.path.join(VERIF, "evidence", a.pid + ".json"), "w"), indent=1, default=str)
+    os.makedirs(EVID_DIR, exist_ok=True)
+    json.dump(evidence, open(os.path.join(EVID_DIR, a.pid + ".json"), "w"), indent=1, default=str)
     for ln in lines:
         log(ln)
     log(f"== {a.pid}: {'FAIL' if violations else 'ok'} in {evidence['wall_s']}s (obligations {discharged}/{obligations})")
